@@ -19,26 +19,26 @@ package proportion
 //@   modifies family(pp.queues[queueId].CPU.Allocated), family(pp.queues[queueId].CPU.Request), family(pp.queues[queueId].CPU.AllocatedNotPreemptible)
 //@   loop 1
 //@     invariant ok ==> utils.onChain(pp.queues, queueId, queueAttributes)
-//@     invariant utils.anyQueue(0).CPU.Allocated == old(utils.anyQueue(0).CPU.Allocated) + addUpTo(pp.queues, queueId, utils.anyQueue(0), ok, queueAttributes, resourceQuantities["CPU"])
-//@     invariant utils.anyQueue(0).CPU.Request == old(utils.anyQueue(0).CPU.Request) + addUpTo(pp.queues, queueId, utils.anyQueue(0), ok, queueAttributes, resourceQuantities["CPU"])
-//@     invariant utils.anyQueue(0).CPU.AllocatedNotPreemptible == old(utils.anyQueue(0).CPU.AllocatedNotPreemptible) + addUpTo(pp.queues, queueId, utils.anyQueue(0), ok, queueAttributes, ite(!preemptibleJob, resourceQuantities["CPU"], 0.0))
-//@     invariant utils.anyQueue(0).Memory.Allocated == old(utils.anyQueue(0).Memory.Allocated) + addUpTo(pp.queues, queueId, utils.anyQueue(0), ok, queueAttributes, resourceQuantities["Memory"])
-//@     invariant utils.anyQueue(0).Memory.Request == old(utils.anyQueue(0).Memory.Request) + addUpTo(pp.queues, queueId, utils.anyQueue(0), ok, queueAttributes, resourceQuantities["Memory"])
-//@     invariant utils.anyQueue(0).Memory.AllocatedNotPreemptible == old(utils.anyQueue(0).Memory.AllocatedNotPreemptible) + addUpTo(pp.queues, queueId, utils.anyQueue(0), ok, queueAttributes, ite(!preemptibleJob, resourceQuantities["Memory"], 0.0))
-//@     invariant utils.anyQueue(0).GPU.Allocated == old(utils.anyQueue(0).GPU.Allocated) + addUpTo(pp.queues, queueId, utils.anyQueue(0), ok, queueAttributes, resourceQuantities["GPU"])
-//@     invariant utils.anyQueue(0).GPU.Request == old(utils.anyQueue(0).GPU.Request) + addUpTo(pp.queues, queueId, utils.anyQueue(0), ok, queueAttributes, resourceQuantities["GPU"])
-//@     invariant utils.anyQueue(0).GPU.AllocatedNotPreemptible == old(utils.anyQueue(0).GPU.AllocatedNotPreemptible) + addUpTo(pp.queues, queueId, utils.anyQueue(0), ok, queueAttributes, ite(!preemptibleJob, resourceQuantities["GPU"], 0.0))
+//@     invariant forall q *rs.QueueAttributes :: q.CPU.Allocated == old(q.CPU.Allocated) + addUpTo(pp.queues, queueId, q, ok, queueAttributes, resourceQuantities["CPU"])
+//@     invariant forall q *rs.QueueAttributes :: q.CPU.Request == old(q.CPU.Request) + addUpTo(pp.queues, queueId, q, ok, queueAttributes, resourceQuantities["CPU"])
+//@     invariant forall q *rs.QueueAttributes :: q.CPU.AllocatedNotPreemptible == old(q.CPU.AllocatedNotPreemptible) + addUpTo(pp.queues, queueId, q, ok, queueAttributes, ite(!preemptibleJob, resourceQuantities["CPU"], 0.0))
+//@     invariant forall q *rs.QueueAttributes :: q.Memory.Allocated == old(q.Memory.Allocated) + addUpTo(pp.queues, queueId, q, ok, queueAttributes, resourceQuantities["Memory"])
+//@     invariant forall q *rs.QueueAttributes :: q.Memory.Request == old(q.Memory.Request) + addUpTo(pp.queues, queueId, q, ok, queueAttributes, resourceQuantities["Memory"])
+//@     invariant forall q *rs.QueueAttributes :: q.Memory.AllocatedNotPreemptible == old(q.Memory.AllocatedNotPreemptible) + addUpTo(pp.queues, queueId, q, ok, queueAttributes, ite(!preemptibleJob, resourceQuantities["Memory"], 0.0))
+//@     invariant forall q *rs.QueueAttributes :: q.GPU.Allocated == old(q.GPU.Allocated) + addUpTo(pp.queues, queueId, q, ok, queueAttributes, resourceQuantities["GPU"])
+//@     invariant forall q *rs.QueueAttributes :: q.GPU.Request == old(q.GPU.Request) + addUpTo(pp.queues, queueId, q, ok, queueAttributes, resourceQuantities["GPU"])
+//@     invariant forall q *rs.QueueAttributes :: q.GPU.AllocatedNotPreemptible == old(q.GPU.AllocatedNotPreemptible) + addUpTo(pp.queues, queueId, q, ok, queueAttributes, ite(!preemptibleJob, resourceQuantities["GPU"], 0.0))
 //@     decreases ite(ok, utils.depth(queueId) - utils.lvl(queueAttributes), 0)
 //@   loop 2 unroll 3
-//@   ensures [CPUAllocated] utils.anyQueue(0).CPU.Allocated == old(utils.anyQueue(0).CPU.Allocated) + add(pp.queues, queueId, utils.anyQueue(0), resourceQuantities["CPU"])
-//@   ensures [CPURequest] utils.anyQueue(0).CPU.Request == old(utils.anyQueue(0).CPU.Request) + add(pp.queues, queueId, utils.anyQueue(0), resourceQuantities["CPU"])
-//@   ensures [CPUAllocatedNotPreemptible] utils.anyQueue(0).CPU.AllocatedNotPreemptible == old(utils.anyQueue(0).CPU.AllocatedNotPreemptible) + add(pp.queues, queueId, utils.anyQueue(0), ite(!preemptibleJob, resourceQuantities["CPU"], 0.0))
-//@   ensures [MemoryAllocated] utils.anyQueue(0).Memory.Allocated == old(utils.anyQueue(0).Memory.Allocated) + add(pp.queues, queueId, utils.anyQueue(0), resourceQuantities["Memory"])
-//@   ensures [MemoryRequest] utils.anyQueue(0).Memory.Request == old(utils.anyQueue(0).Memory.Request) + add(pp.queues, queueId, utils.anyQueue(0), resourceQuantities["Memory"])
-//@   ensures [MemoryAllocatedNotPreemptible] utils.anyQueue(0).Memory.AllocatedNotPreemptible == old(utils.anyQueue(0).Memory.AllocatedNotPreemptible) + add(pp.queues, queueId, utils.anyQueue(0), ite(!preemptibleJob, resourceQuantities["Memory"], 0.0))
-//@   ensures [GPUAllocated] utils.anyQueue(0).GPU.Allocated == old(utils.anyQueue(0).GPU.Allocated) + add(pp.queues, queueId, utils.anyQueue(0), resourceQuantities["GPU"])
-//@   ensures [GPURequest] utils.anyQueue(0).GPU.Request == old(utils.anyQueue(0).GPU.Request) + add(pp.queues, queueId, utils.anyQueue(0), resourceQuantities["GPU"])
-//@   ensures [GPUAllocatedNotPreemptible] utils.anyQueue(0).GPU.AllocatedNotPreemptible == old(utils.anyQueue(0).GPU.AllocatedNotPreemptible) + add(pp.queues, queueId, utils.anyQueue(0), ite(!preemptibleJob, resourceQuantities["GPU"], 0.0))
+//@   ensures [CPUAllocated] forall q *rs.QueueAttributes :: q.CPU.Allocated == old(q.CPU.Allocated) + add(pp.queues, queueId, q, resourceQuantities["CPU"])
+//@   ensures [CPURequest] forall q *rs.QueueAttributes :: q.CPU.Request == old(q.CPU.Request) + add(pp.queues, queueId, q, resourceQuantities["CPU"])
+//@   ensures [CPUAllocatedNotPreemptible] forall q *rs.QueueAttributes :: q.CPU.AllocatedNotPreemptible == old(q.CPU.AllocatedNotPreemptible) + add(pp.queues, queueId, q, ite(!preemptibleJob, resourceQuantities["CPU"], 0.0))
+//@   ensures [MemoryAllocated] forall q *rs.QueueAttributes :: q.Memory.Allocated == old(q.Memory.Allocated) + add(pp.queues, queueId, q, resourceQuantities["Memory"])
+//@   ensures [MemoryRequest] forall q *rs.QueueAttributes :: q.Memory.Request == old(q.Memory.Request) + add(pp.queues, queueId, q, resourceQuantities["Memory"])
+//@   ensures [MemoryAllocatedNotPreemptible] forall q *rs.QueueAttributes :: q.Memory.AllocatedNotPreemptible == old(q.Memory.AllocatedNotPreemptible) + add(pp.queues, queueId, q, ite(!preemptibleJob, resourceQuantities["Memory"], 0.0))
+//@   ensures [GPUAllocated] forall q *rs.QueueAttributes :: q.GPU.Allocated == old(q.GPU.Allocated) + add(pp.queues, queueId, q, resourceQuantities["GPU"])
+//@   ensures [GPURequest] forall q *rs.QueueAttributes :: q.GPU.Request == old(q.GPU.Request) + add(pp.queues, queueId, q, resourceQuantities["GPU"])
+//@   ensures [GPUAllocatedNotPreemptible] forall q *rs.QueueAttributes :: q.GPU.AllocatedNotPreemptible == old(q.GPU.AllocatedNotPreemptible) + add(pp.queues, queueId, q, ite(!preemptibleJob, resourceQuantities["GPU"], 0.0))
 //@ end
 
 // Pending tasks only raise Request, at every level of the chain; nothing else changes.
@@ -49,17 +49,19 @@ package proportion
 //@   modifies family(pp.queues[queueId].CPU.Request)
 //@   loop 1
 //@     invariant ok ==> utils.onChain(pp.queues, queueId, queueAttributes)
-//@     invariant utils.anyQueue(0).CPU.Request == old(utils.anyQueue(0).CPU.Request) + addUpTo(pp.queues, queueId, utils.anyQueue(0), ok, queueAttributes, resourceQuantities["CPU"])
-//@     invariant utils.anyQueue(0).Memory.Request == old(utils.anyQueue(0).Memory.Request) + addUpTo(pp.queues, queueId, utils.anyQueue(0), ok, queueAttributes, resourceQuantities["Memory"])
-//@     invariant utils.anyQueue(0).GPU.Request == old(utils.anyQueue(0).GPU.Request) + addUpTo(pp.queues, queueId, utils.anyQueue(0), ok, queueAttributes, resourceQuantities["GPU"])
+//@     invariant forall q *rs.QueueAttributes :: q.CPU.Request == old(q.CPU.Request) + addUpTo(pp.queues, queueId, q, ok, queueAttributes, resourceQuantities["CPU"])
+//@     invariant forall q *rs.QueueAttributes :: q.Memory.Request == old(q.Memory.Request) + addUpTo(pp.queues, queueId, q, ok, queueAttributes, resourceQuantities["Memory"])
+//@     invariant forall q *rs.QueueAttributes :: q.GPU.Request == old(q.GPU.Request) + addUpTo(pp.queues, queueId, q, ok, queueAttributes, resourceQuantities["GPU"])
 //@     decreases ite(ok, utils.depth(queueId) - utils.lvl(queueAttributes), 0)
 //@   loop 2 unroll 3
-//@   ensures [CPURequest] utils.anyQueue(0).CPU.Request == old(utils.anyQueue(0).CPU.Request) + add(pp.queues, queueId, utils.anyQueue(0), resourceQuantities["CPU"])
-//@   ensures [MemoryRequest] utils.anyQueue(0).Memory.Request == old(utils.anyQueue(0).Memory.Request) + add(pp.queues, queueId, utils.anyQueue(0), resourceQuantities["Memory"])
-//@   ensures [GPURequest] utils.anyQueue(0).GPU.Request == old(utils.anyQueue(0).GPU.Request) + add(pp.queues, queueId, utils.anyQueue(0), resourceQuantities["GPU"])
+//@   ensures [CPURequest] forall q *rs.QueueAttributes :: q.CPU.Request == old(q.CPU.Request) + add(pp.queues, queueId, q, resourceQuantities["CPU"])
+//@   ensures [MemoryRequest] forall q *rs.QueueAttributes :: q.Memory.Request == old(q.Memory.Request) + add(pp.queues, queueId, q, resourceQuantities["Memory"])
+//@   ensures [GPURequest] forall q *rs.QueueAttributes :: q.GPU.Request == old(q.GPU.Request) + add(pp.queues, queueId, q, resourceQuantities["GPU"])
 //@ end
 
 // ---- event handlers (closures) ----------------------------------------------------
+// let-binding: chargedGPU() names the GPU quota of the task's AcceptedResource (bound by a requires clause in each handler)
+//@ declare chargedGPU() real
 // Property C08 (mechanism "allocate/deallocate event handlers keep Allocated and AllocatedNotPreemptible
 // current"): for the queue of the task's job and EVERY ancestor q: Allocated'(q) = Allocated(q) + r in all
 // three resources (r = quantities of the task's AcceptedResource), AllocatedNotPreemptible likewise iff
@@ -68,24 +70,25 @@ package proportion
 //@   props C08 C14 C10
 //@   requires pp != nil && ssn != nil && ssn.ClusterInfo != nil && event != nil && event.Task != nil && event.Task.AcceptedResource != nil
 //@   requires ssn.ClusterInfo.PodGroupInfos[event.Task.Job] != nil
+//@   requires chargedGPU() == event.Task.AcceptedResource.GetGpusQuota()
 //@   requires utils.chainOK(pp.queues, ssn.ClusterInfo.PodGroupInfos[event.Task.Job].Queue) && utils.depth(ssn.ClusterInfo.PodGroupInfos[event.Task.Job].Queue) >= 1
 //@   modifies family(pp.queues[ssn.ClusterInfo.PodGroupInfos[event.Task.Job].Queue].CPU.Allocated), family(pp.queues[ssn.ClusterInfo.PodGroupInfos[event.Task.Job].Queue].CPU.AllocatedNotPreemptible)
 //@   loop 1
 //@     invariant ok ==> utils.onChain(pp.queues, job.Queue, queue)
-//@     invariant utils.anyQueue(0).CPU.Allocated == old(utils.anyQueue(0).CPU.Allocated) + addUpTo(pp.queues, job.Queue, utils.anyQueue(0), ok, queue, taskResources["CPU"])
-//@     invariant utils.anyQueue(0).CPU.AllocatedNotPreemptible == old(utils.anyQueue(0).CPU.AllocatedNotPreemptible) + addUpTo(pp.queues, job.Queue, utils.anyQueue(0), ok, queue, ite(isPreemptibleJob, 0.0, taskResources["CPU"]))
-//@     invariant utils.anyQueue(0).Memory.Allocated == old(utils.anyQueue(0).Memory.Allocated) + addUpTo(pp.queues, job.Queue, utils.anyQueue(0), ok, queue, taskResources["Memory"])
-//@     invariant utils.anyQueue(0).Memory.AllocatedNotPreemptible == old(utils.anyQueue(0).Memory.AllocatedNotPreemptible) + addUpTo(pp.queues, job.Queue, utils.anyQueue(0), ok, queue, ite(isPreemptibleJob, 0.0, taskResources["Memory"]))
-//@     invariant utils.anyQueue(0).GPU.Allocated == old(utils.anyQueue(0).GPU.Allocated) + addUpTo(pp.queues, job.Queue, utils.anyQueue(0), ok, queue, taskResources["GPU"])
-//@     invariant utils.anyQueue(0).GPU.AllocatedNotPreemptible == old(utils.anyQueue(0).GPU.AllocatedNotPreemptible) + addUpTo(pp.queues, job.Queue, utils.anyQueue(0), ok, queue, ite(isPreemptibleJob, 0.0, taskResources["GPU"]))
+//@     invariant forall q *rs.QueueAttributes :: q.CPU.Allocated == old(q.CPU.Allocated) + addUpTo(pp.queues, job.Queue, q, ok, queue, taskResources["CPU"])
+//@     invariant forall q *rs.QueueAttributes :: q.CPU.AllocatedNotPreemptible == old(q.CPU.AllocatedNotPreemptible) + addUpTo(pp.queues, job.Queue, q, ok, queue, ite(isPreemptibleJob, 0.0, taskResources["CPU"]))
+//@     invariant forall q *rs.QueueAttributes :: q.Memory.Allocated == old(q.Memory.Allocated) + addUpTo(pp.queues, job.Queue, q, ok, queue, taskResources["Memory"])
+//@     invariant forall q *rs.QueueAttributes :: q.Memory.AllocatedNotPreemptible == old(q.Memory.AllocatedNotPreemptible) + addUpTo(pp.queues, job.Queue, q, ok, queue, ite(isPreemptibleJob, 0.0, taskResources["Memory"]))
+//@     invariant forall q *rs.QueueAttributes :: q.GPU.Allocated == old(q.GPU.Allocated) + addUpTo(pp.queues, job.Queue, q, ok, queue, taskResources["GPU"])
+//@     invariant forall q *rs.QueueAttributes :: q.GPU.AllocatedNotPreemptible == old(q.GPU.AllocatedNotPreemptible) + addUpTo(pp.queues, job.Queue, q, ok, queue, ite(isPreemptibleJob, 0.0, taskResources["GPU"]))
 //@     decreases ite(ok, utils.depth(job.Queue) - utils.lvl(queue), 0)
 //@   loop 2 unroll 3
-//@   ensures [CPUAllocated] utils.anyQueue(0).CPU.Allocated == old(utils.anyQueue(0).CPU.Allocated) + add(pp.queues, ssn.ClusterInfo.PodGroupInfos[event.Task.Job].Queue, utils.anyQueue(0), old(event.Task.AcceptedResource.milliCpu))
-//@   ensures [CPUAllocatedNotPreemptible] utils.anyQueue(0).CPU.AllocatedNotPreemptible == old(utils.anyQueue(0).CPU.AllocatedNotPreemptible) + add(pp.queues, ssn.ClusterInfo.PodGroupInfos[event.Task.Job].Queue, utils.anyQueue(0), ite(ssn.ClusterInfo.PodGroupInfos[event.Task.Job].Preemptibility == "preemptible", 0.0, old(event.Task.AcceptedResource.milliCpu)))
-//@   ensures [MemoryAllocated] utils.anyQueue(0).Memory.Allocated == old(utils.anyQueue(0).Memory.Allocated) + add(pp.queues, ssn.ClusterInfo.PodGroupInfos[event.Task.Job].Queue, utils.anyQueue(0), old(event.Task.AcceptedResource.memory))
-//@   ensures [MemoryAllocatedNotPreemptible] utils.anyQueue(0).Memory.AllocatedNotPreemptible == old(utils.anyQueue(0).Memory.AllocatedNotPreemptible) + add(pp.queues, ssn.ClusterInfo.PodGroupInfos[event.Task.Job].Queue, utils.anyQueue(0), ite(ssn.ClusterInfo.PodGroupInfos[event.Task.Job].Preemptibility == "preemptible", 0.0, old(event.Task.AcceptedResource.memory)))
-//@   ensures [GPUAllocated] utils.anyQueue(0).GPU.Allocated == old(utils.anyQueue(0).GPU.Allocated) + add(pp.queues, ssn.ClusterInfo.PodGroupInfos[event.Task.Job].Queue, utils.anyQueue(0), old(event.Task.AcceptedResource.GetGpusQuota()))
-//@   ensures [GPUAllocatedNotPreemptible] utils.anyQueue(0).GPU.AllocatedNotPreemptible == old(utils.anyQueue(0).GPU.AllocatedNotPreemptible) + add(pp.queues, ssn.ClusterInfo.PodGroupInfos[event.Task.Job].Queue, utils.anyQueue(0), ite(ssn.ClusterInfo.PodGroupInfos[event.Task.Job].Preemptibility == "preemptible", 0.0, old(event.Task.AcceptedResource.GetGpusQuota())))
+//@   ensures [CPUAllocated] forall q *rs.QueueAttributes :: q.CPU.Allocated == old(q.CPU.Allocated) + add(pp.queues, ssn.ClusterInfo.PodGroupInfos[event.Task.Job].Queue, q, event.Task.AcceptedResource.milliCpu)
+//@   ensures [CPUAllocatedNotPreemptible] forall q *rs.QueueAttributes :: q.CPU.AllocatedNotPreemptible == old(q.CPU.AllocatedNotPreemptible) + add(pp.queues, ssn.ClusterInfo.PodGroupInfos[event.Task.Job].Queue, q, ite(ssn.ClusterInfo.PodGroupInfos[event.Task.Job].Preemptibility == "preemptible", 0.0, event.Task.AcceptedResource.milliCpu))
+//@   ensures [MemoryAllocated] forall q *rs.QueueAttributes :: q.Memory.Allocated == old(q.Memory.Allocated) + add(pp.queues, ssn.ClusterInfo.PodGroupInfos[event.Task.Job].Queue, q, event.Task.AcceptedResource.memory)
+//@   ensures [MemoryAllocatedNotPreemptible] forall q *rs.QueueAttributes :: q.Memory.AllocatedNotPreemptible == old(q.Memory.AllocatedNotPreemptible) + add(pp.queues, ssn.ClusterInfo.PodGroupInfos[event.Task.Job].Queue, q, ite(ssn.ClusterInfo.PodGroupInfos[event.Task.Job].Preemptibility == "preemptible", 0.0, event.Task.AcceptedResource.memory))
+//@   ensures [GPUAllocated] forall q *rs.QueueAttributes :: q.GPU.Allocated == old(q.GPU.Allocated) + add(pp.queues, ssn.ClusterInfo.PodGroupInfos[event.Task.Job].Queue, q, chargedGPU())
+//@   ensures [GPUAllocatedNotPreemptible] forall q *rs.QueueAttributes :: q.GPU.AllocatedNotPreemptible == old(q.GPU.AllocatedNotPreemptible) + add(pp.queues, ssn.ClusterInfo.PodGroupInfos[event.Task.Job].Queue, q, ite(ssn.ClusterInfo.PodGroupInfos[event.Task.Job].Preemptibility == "preemptible", 0.0, chargedGPU()))
 //@ end
 
 // Mirror image: the deallocate handler subtracts exactly what the allocate handler added.
@@ -93,55 +96,23 @@ package proportion
 //@   props C08 C14 C10
 //@   requires pp != nil && ssn != nil && ssn.ClusterInfo != nil && event != nil && event.Task != nil && event.Task.AcceptedResource != nil
 //@   requires ssn.ClusterInfo.PodGroupInfos[event.Task.Job] != nil
+//@   requires chargedGPU() == event.Task.AcceptedResource.GetGpusQuota()
 //@   requires utils.chainOK(pp.queues, ssn.ClusterInfo.PodGroupInfos[event.Task.Job].Queue) && utils.depth(ssn.ClusterInfo.PodGroupInfos[event.Task.Job].Queue) >= 1
 //@   modifies family(pp.queues[ssn.ClusterInfo.PodGroupInfos[event.Task.Job].Queue].CPU.Allocated), family(pp.queues[ssn.ClusterInfo.PodGroupInfos[event.Task.Job].Queue].CPU.AllocatedNotPreemptible)
 //@   loop 1
 //@     invariant ok ==> utils.onChain(pp.queues, job.Queue, queue)
-//@     invariant utils.anyQueue(0).CPU.Allocated == old(utils.anyQueue(0).CPU.Allocated) - addUpTo(pp.queues, job.Queue, utils.anyQueue(0), ok, queue, taskResources["CPU"])
-//@     invariant utils.anyQueue(0).CPU.AllocatedNotPreemptible == old(utils.anyQueue(0).CPU.AllocatedNotPreemptible) - addUpTo(pp.queues, job.Queue, utils.anyQueue(0), ok, queue, ite(isPreemptibleJob, 0.0, taskResources["CPU"]))
-//@     invariant utils.anyQueue(0).Memory.Allocated == old(utils.anyQueue(0).Memory.Allocated) - addUpTo(pp.queues, job.Queue, utils.anyQueue(0), ok, queue, taskResources["Memory"])
-//@     invariant utils.anyQueue(0).Memory.AllocatedNotPreemptible == old(utils.anyQueue(0).Memory.AllocatedNotPreemptible) - addUpTo(pp.queues, job.Queue, utils.anyQueue(0), ok, queue, ite(isPreemptibleJob, 0.0, taskResources["Memory"]))
-//@     invariant utils.anyQueue(0).GPU.Allocated == old(utils.anyQueue(0).GPU.Allocated) - addUpTo(pp.queues, job.Queue, utils.anyQueue(0), ok, queue, taskResources["GPU"])
-//@     invariant utils.anyQueue(0).GPU.AllocatedNotPreemptible == old(utils.anyQueue(0).GPU.AllocatedNotPreemptible) - addUpTo(pp.queues, job.Queue, utils.anyQueue(0), ok, queue, ite(isPreemptibleJob, 0.0, taskResources["GPU"]))
+//@     invariant forall q *rs.QueueAttributes :: q.CPU.Allocated == old(q.CPU.Allocated) - addUpTo(pp.queues, job.Queue, q, ok, queue, taskResources["CPU"])
+//@     invariant forall q *rs.QueueAttributes :: q.CPU.AllocatedNotPreemptible == old(q.CPU.AllocatedNotPreemptible) - addUpTo(pp.queues, job.Queue, q, ok, queue, ite(isPreemptibleJob, 0.0, taskResources["CPU"]))
+//@     invariant forall q *rs.QueueAttributes :: q.Memory.Allocated == old(q.Memory.Allocated) - addUpTo(pp.queues, job.Queue, q, ok, queue, taskResources["Memory"])
+//@     invariant forall q *rs.QueueAttributes :: q.Memory.AllocatedNotPreemptible == old(q.Memory.AllocatedNotPreemptible) - addUpTo(pp.queues, job.Queue, q, ok, queue, ite(isPreemptibleJob, 0.0, taskResources["Memory"]))
+//@     invariant forall q *rs.QueueAttributes :: q.GPU.Allocated == old(q.GPU.Allocated) - addUpTo(pp.queues, job.Queue, q, ok, queue, taskResources["GPU"])
+//@     invariant forall q *rs.QueueAttributes :: q.GPU.AllocatedNotPreemptible == old(q.GPU.AllocatedNotPreemptible) - addUpTo(pp.queues, job.Queue, q, ok, queue, ite(isPreemptibleJob, 0.0, taskResources["GPU"]))
 //@     decreases ite(ok, utils.depth(job.Queue) - utils.lvl(queue), 0)
 //@   loop 2 unroll 3
-//@   ensures [CPUAllocated] utils.anyQueue(0).CPU.Allocated == old(utils.anyQueue(0).CPU.Allocated) - add(pp.queues, ssn.ClusterInfo.PodGroupInfos[event.Task.Job].Queue, utils.anyQueue(0), old(event.Task.AcceptedResource.milliCpu))
-//@   ensures [CPUAllocatedNotPreemptible] utils.anyQueue(0).CPU.AllocatedNotPreemptible == old(utils.anyQueue(0).CPU.AllocatedNotPreemptible) - add(pp.queues, ssn.ClusterInfo.PodGroupInfos[event.Task.Job].Queue, utils.anyQueue(0), ite(ssn.ClusterInfo.PodGroupInfos[event.Task.Job].Preemptibility == "preemptible", 0.0, old(event.Task.AcceptedResource.milliCpu)))
-//@   ensures [MemoryAllocated] utils.anyQueue(0).Memory.Allocated == old(utils.anyQueue(0).Memory.Allocated) - add(pp.queues, ssn.ClusterInfo.PodGroupInfos[event.Task.Job].Queue, utils.anyQueue(0), old(event.Task.AcceptedResource.memory))
-//@   ensures [MemoryAllocatedNotPreemptible] utils.anyQueue(0).Memory.AllocatedNotPreemptible == old(utils.anyQueue(0).Memory.AllocatedNotPreemptible) - add(pp.queues, ssn.ClusterInfo.PodGroupInfos[event.Task.Job].Queue, utils.anyQueue(0), ite(ssn.ClusterInfo.PodGroupInfos[event.Task.Job].Preemptibility == "preemptible", 0.0, old(event.Task.AcceptedResource.memory)))
-//@   ensures [GPUAllocated] utils.anyQueue(0).GPU.Allocated == old(utils.anyQueue(0).GPU.Allocated) - add(pp.queues, ssn.ClusterInfo.PodGroupInfos[event.Task.Job].Queue, utils.anyQueue(0), old(event.Task.AcceptedResource.GetGpusQuota()))
-//@   ensures [GPUAllocatedNotPreemptible] utils.anyQueue(0).GPU.AllocatedNotPreemptible == old(utils.anyQueue(0).GPU.AllocatedNotPreemptible) - add(pp.queues, ssn.ClusterInfo.PodGroupInfos[event.Task.Job].Queue, utils.anyQueue(0), ite(ssn.ClusterInfo.PodGroupInfos[event.Task.Job].Preemptibility == "preemptible", 0.0, old(event.Task.AcceptedResource.GetGpusQuota())))
-//@ end
-
-// ---- queue hierarchy helpers (C09 recursion inputs, C10 nil safety) ------------------------------
-// Top queues = exactly the queues without a parent, keyed by their own id. Needs the map to be keyed
-// by UID (established by createQueueResourceAttrs) and to have no nil entry.
-//@ func (*proportionPlugin).getTopQueues
-//@   props C09 C10
-//@   requires pp != nil
-//@   requires forall k in pp.queues :: pp.queues[k] != nil && pp.queues[k].UID == k
-//@   fresh
-//@   loop 1
-//@     invariant topQueues != nil && fresh(topQueues)
-//@     invariant forall k in visited :: k in pp.queues
-//@     invariant forall k common_info.QueueID :: k in topQueues <==> (k in visited && len(pp.queues[k].ParentQueue) == 0)
-//@     invariant forall k in topQueues :: topQueues[k] == pp.queues[k] && topQueues[k] != nil
-//@   ensures forall k common_info.QueueID :: k in result <==> (k in pp.queues && len(pp.queues[k].ParentQueue) == 0)
-//@   ensures forall k in result :: result[k] == pp.queues[k] && result[k] != nil
-//@ end
-
-// Child map of a queue: one entry per listed child id, value = that child's attributes; a listed id
-// that is missing from pp.queues yields a nil entry (C10: consumers must not dereference it), hence
-// the last ensures under the well-formedness premise.
-//@ func (*proportionPlugin).getChildQueues
-//@   props C09 C10
-//@   requires pp != nil && parentQueue != nil
-//@   fresh
-//@   loop 1
-//@     invariant childQueues != nil && fresh(childQueues)
-//@     invariant 0 - 1 <= rangeindex && rangeindex < len(parentQueue.ChildQueues)
-//@     invariant forall i int :: 0 <= i && i <= rangeindex ==> parentQueue.ChildQueues[i] in childQueues
-//@     invariant forall k in childQueues :: childQueues[k] == pp.queues[k]
-//@   ensures [allChildren] forall i int :: 0 <= i && i < len(parentQueue.ChildQueues) ==> parentQueue.ChildQueues[i] in result
-//@   ensures [sameObjects] forall k in result :: result[k] == pp.queues[k]
+//@   ensures [CPUAllocated] forall q *rs.QueueAttributes :: q.CPU.Allocated == old(q.CPU.Allocated) - add(pp.queues, ssn.ClusterInfo.PodGroupInfos[event.Task.Job].Queue, q, event.Task.AcceptedResource.milliCpu)
+//@   ensures [CPUAllocatedNotPreemptible] forall q *rs.QueueAttributes :: q.CPU.AllocatedNotPreemptible == old(q.CPU.AllocatedNotPreemptible) - add(pp.queues, ssn.ClusterInfo.PodGroupInfos[event.Task.Job].Queue, q, ite(ssn.ClusterInfo.PodGroupInfos[event.Task.Job].Preemptibility == "preemptible", 0.0, event.Task.AcceptedResource.milliCpu))
+//@   ensures [MemoryAllocated] forall q *rs.QueueAttributes :: q.Memory.Allocated == old(q.Memory.Allocated) - add(pp.queues, ssn.ClusterInfo.PodGroupInfos[event.Task.Job].Queue, q, event.Task.AcceptedResource.memory)
+//@   ensures [MemoryAllocatedNotPreemptible] forall q *rs.QueueAttributes :: q.Memory.AllocatedNotPreemptible == old(q.Memory.AllocatedNotPreemptible) - add(pp.queues, ssn.ClusterInfo.PodGroupInfos[event.Task.Job].Queue, q, ite(ssn.ClusterInfo.PodGroupInfos[event.Task.Job].Preemptibility == "preemptible", 0.0, event.Task.AcceptedResource.memory))
+//@   ensures [GPUAllocated] forall q *rs.QueueAttributes :: q.GPU.Allocated == old(q.GPU.Allocated) - add(pp.queues, ssn.ClusterInfo.PodGroupInfos[event.Task.Job].Queue, q, chargedGPU())
+//@   ensures [GPUAllocatedNotPreemptible] forall q *rs.QueueAttributes :: q.GPU.AllocatedNotPreemptible == old(q.GPU.AllocatedNotPreemptible) - add(pp.queues, ssn.ClusterInfo.PodGroupInfos[event.Task.Job].Queue, q, ite(ssn.ClusterInfo.PodGroupInfos[event.Task.Job].Preemptibility == "preemptible", 0.0, chargedGPU()))
 //@ end
